@@ -22,6 +22,8 @@ pub struct Avoid {
     pub multi_directive: bool,
     /// optional call `?.()` whose callee is a member of an inner part of the same optional chain (`a?.m().p?.()`)
     pub opt_call_paren_callee: bool,
+    /// surplus arguments of `.apply(thisArg, [..], surplus)` in executed programs (see the known finding)
+    pub apply_surplus_args: bool,
     /// `super[key()] += s` inside the arguments of `super(..)` (always throws; see the known finding)
     pub super_key_before_super_call: bool,
     /// with the plus operator disabled: a bare `+` expression as operand of an instrumented call / template
@@ -803,6 +805,19 @@ impl<'t, 'a> Gen<'t, 'a> {
                         }
                     }
                     args.push(Arg { spread: false, e: E::Array(elems) });
+                    if self.t.chance(35) && !(self.o.exec && self.o.avoid.apply_surplus_args) {
+                        // `apply(thisArg, [..], surplus)`: evaluated, ignored by apply
+                        self.tag("apply-surplus-arg");
+                        let mut extra = self.expr(d.min(2));
+                        if self.o.avoid.apply_surplus_args && matches!(extra, E::Array(_)) {
+                            // known finding: a surplus array literal is expanded into the hook's operand list
+                            self.redirect("apply_surplus_args");
+                            extra = extra.paren();
+                        }
+                        args.push(Arg { spread: false, e: extra });
+                    } else if self.o.exec && self.o.avoid.apply_surplus_args {
+                        self.redirect("apply_surplus_args");
+                    }
                 }
                 1 => args.push(Arg { spread: false, e: self.ident() }),
                 2 => {}
